@@ -5,7 +5,7 @@ from common import *
 import hvgen
 import hvhist
 
-PROP_MODULES = ["HvsrVerif.Props.C11"]
+PROP_MODULES = ["HvsrVerif.Props.C11", "HvsrVerif.Props.C11Laws"]
 BRIDGE_MODULES = []
 
 
